@@ -309,8 +309,9 @@ example : projAns 0 (runInst [parseVia 2 ({ gtype := "POINT", enc := exPointsEnc
 /-- trip-wire on the regenerated flag `Gen.decodedSharedZReadOnly` (the array a parsed group rebuilds with the common z column
 is made read-only before it is cached — /repo fix; without it a caller's in-place edit of a returned array changed every later
 answer).  The behaviour itself is carried by tie C: in the `history`, `instance-history` and measurement streams the harness
-overwrites every array it is allowed to write to between reads (histogram `scribbled_arrays`). -/
-theorem tie_decoded_arrays_read_only : decodedSharedZReadOnly = true := rfl
+overwrites every array it is allowed to write to between reads and empties every list it was given (histogram
+`scribbled_arrays`); second flag `Gen.graphicDataReturnsNewList`: `get_graphic_data` hands out a new list, not the cached one. -/
+theorem tie_decoded_arrays_read_only : decodedSharedZReadOnly = true ∧ graphicDataReturnsNewList = true := ⟨rfl, rfl⟩
 
 /-! ## stored attributes (L1) -/
 
